@@ -218,6 +218,7 @@ MANIFEST = dict(
          "schema at every nesting depth; the already-declared guards are extracted from "
          "the current source into D42/Gen/Guards.lean on every run and the model is proved to follow that table; tie: outcome "
          "(schema or exception class) of model and code compared on random chains (len<=4) and all ordered method pairs; search: "
-         "exception type, self-consistency of fixed values via the real validate, re-declaration on the real code.",
+         "exception type, self-consistency of fixed values via the real validate, re-declaration on the real code."
+         " Source pins: the normalised text of every anchor file is compared with the text the model was last validated against; a changed file is a broken obligation (no-failing-input-found unless the search finds an input).",
     note="Partial under NoNaN (K6: schema.float(nan) rejects its own value). Trusted: Lean kernel + standard axioms, the ast "
          "extractor (~120 lines) and its idioms, hand model (sampling tie), codec.")
